@@ -23,6 +23,8 @@ func newModel(thorough bool) *chainprop.Model {
 	m.Std()
 	m.StdDrive()
 	m.Singles(false)
+	m.GapSingles() // a sender's second transaction after its first one was dropped by the builder's own filter
+	m.TipsSingles() // every template once more with tips (tips are paid on top of amount and fee)
 	if thorough {
 		m.Pairs()
 	} else {
@@ -62,6 +64,10 @@ func newModel(thorough bool) *chainprop.Model {
 		}
 		c.Count("proposals_validated", 1)
 		if errB := B.Add(t.Block); errB != nil {
+			if t.Act.Direct {
+				// keyed by the input: which transaction was validated by the builder without being included
+				kind = t.Act.Name
+			}
 			c.Violation("validator-rejects:"+kind+":"+chainprop.ErrClass(errB), fmt.Sprintf("honest %s block at height %d rejected by a fresh validator: %v (txs=%d)", kind, t.Block.Height(), errB, len(t.Block.Body.Transactions)), chainprop.TxTypes(t.Block))
 			return false
 		}
